@@ -13,6 +13,10 @@ spec -> code, two specifications:
                  separator_format one only since its repair); the harness writes real
                  tables to tsv/csv (plain, gz), json and pickle, reloads them with load_table
                  and compares header, cell text and numeric restoration with the spec.
+  TableObject.tla  histories of calls on ONE Table object (index_name = c / None, column
+                 assignment and deletion, interleaved with array / to_dict / sum_rows / write+load);
+                 every history up to the bound is replayed on a fresh real Table and every way of
+                 reading the object is compared with the list-of-rows model (object_C20.py).
 """
 from __future__ import annotations
 
@@ -84,6 +88,7 @@ class TlcJobs:
             "big": ("Table", f"MC_Table_big_{tier}.cfg", 1, True),
             "design": ("TableText", f"MC_Table_text_design_{tier}.cfg", w, True),
             "io": ("TableText", f"MC_Table_text_io_{tier}.cfg", 4, True),
+            "object": ("TableObject", f"MC_Table_object_{tier}.cfg", 4, True),
         }
         self.pool = ThreadPoolExecutor(len(self.specs))
         self.futs = {name: self.pool.submit(self._job, name) for name in self.specs}
@@ -116,6 +121,7 @@ def check(run: Run):
     from cogent3 import load_table, make_table  # noqa: F401
     import cogent3.format.table  # noqa: F401
     import cogent3.maths.stats.number  # noqa: F401
+    import object_C20
     import text_C20
 
     stats = {}
@@ -137,6 +143,7 @@ def check(run: Run):
                                 "cases": n, "disagreements": bad, "by_action": acts}
                 total += n
             total += text_C20.check_text(run, stats, replay, jobs)
+            total += object_C20.check_object(run, stats, jobs)
         finally:
             jobs.close()
     run.note("groups", stats)
@@ -146,7 +153,8 @@ def check(run: Run):
     run.cov["exhaustive"] = True
     run.cov["rule"] = (
         "every (table, operation, arguments) / (pair of tables, join or append arguments) / (table, output path) "
-        "transition of the exhaustive Table and TableText models, each executed once on the real Table API"
+        "transition of the exhaustive Table and TableText models, each executed once on the real Table API; "
+        "every history of calls on one Table object up to the depth bound of TableObject, x 2 read orders"
     )
     run.assumptions += [
         "cells are compared as python values: None, bool, str exactly; int and float by value (1 == 1.0 as in a list of tuples)",
